@@ -166,6 +166,8 @@ func loadProgram(goos, goarch string) (*Program, error) {
 			}
 		}
 	}
+	curProg = p
+	loadVarSlots()
 	return p, nil
 }
 
